@@ -465,12 +465,14 @@ def rewrite_arrayvec(text, counts):
     out = []
     i = 0
     while True:
-        j = text.find("ArrayVec<[", i)
-        if j < 0:
+        m = re.compile(r"ArrayVec<\s*\[").search(text, i)
+        if not m:
             out.append(text[i:])
             break
+        j = m.start()
         out.append(text[i:j])
-        k = j + len("ArrayVec<[")
+        k = m.end()
+        open_end = k
         depth = 1
         semi = -1
         while k < len(text) and depth:
@@ -486,11 +488,13 @@ def rewrite_arrayvec(text, counts):
                 semi = k
             k += 1
         # k is just past the matching ']'
-        inner_t = text[j + len("ArrayVec<["):semi].strip()
+        inner_t = text[open_end:semi].strip()
         inner_n = text[semi + 1:k - 1].strip()
         inner_t = rewrite_arrayvec(inner_t, counts)
         out.append("ArrayVec<%s, { %s }" % (inner_t, inner_n))
         counts["R3"] = counts.get("R3", 0) + 1
+        while k < len(text) and text[k] in " \t\n,":   # rustfmt's multi-line form: `ArrayVec<\n [T; N],\n>`
+            k += 1
         i = k  # the closing '>' of ArrayVec<...> follows in the source text
     return "".join(out)
 
@@ -617,6 +621,11 @@ def render_fn(item, cut, counts):
         sep = opts[key][0]
         _, rx, rep, _ = opts[key].split(sep, 3)
         body, n = re.subn(rx, rep, body)
+        m_ann = re.match(r"let mut (\w+) = ", rx)
+        if n == 0 and m_ann and re.search(r"\blet mut %s\s*:" % m_ann.group(1), body):
+            # the declared rewrite only adds a type annotation (Verus infers less than rustc); the source already carries one
+            counts["R10-annotation-already-present"] = counts.get("R10-annotation-already-present", 0) + 1
+            continue
         if n != 1:
             raise Undecided("lost anchor: %s %r matched %d times in fn %s" % (key, rx, n, item["name"]))
         counts["R10-declared-bodysub"] = counts.get("R10-declared-bodysub", 0) + n
